@@ -94,7 +94,7 @@ type gate struct {
 // stack hash falls in the run's residue class may be deferred until no other task can
 // run at that instant. No clock moves: it is a pure scheduling choice, concentrated on
 // a few code sites per run instead of on step numbers.
-const yieldMod = 24
+const yieldMod = 12
 
 var yieldOn bool
 
@@ -447,7 +447,7 @@ func Run(root func(), c Config, s *Tape) Result {
 	lowPrio := 0
 	yieldOn = false
 	yieldTarget, yieldsLeft := uint32(0), 0
-	if S.Draw(3) == 2 {
+	if S.Draw(2) == 1 {
 		yieldOn, yieldTarget, yieldsLeft = true, uint32(S.Draw(yieldMod)), 40
 	}
 
